@@ -78,3 +78,30 @@ Definition norm2_bwd (g : R) (l : list R) (i : nat) : R := nth i l 0 / vnorm2 l 
 (* general ord: |x|**(ord-1) * sign(x) * (norm / sum(|x|**ord)) * grad *)
 Definition normp_bwd (p g : R) (l : list R) (i : nat) : R :=
   abspow (nth i l 0) (p - 1) * sgn (nth i l 0) * (vnormp p l / vsum (map (fun x => abspow x p) l)) * g.
+
+(* ---- losses (nnet/losses): one datum (row of scores l, true class y), c = 1/N ---- *)
+Definition relu0 (m : R) : R := if Rlt_dec 0 m then m else 0.           (* max(0, m); M <= 0 is thresholded to 0 *)
+Definition step0 (m : R) : R := if Rlt_dec 0 m then 1 else 0.
+(* multiclass hinge: c * sum_{j <> y} max(0, l_j - l_y + h) *)
+Fixpoint hinge_sum (h ly : R) (y : nat) (j : nat) (l : list R) : R :=
+  match l with
+  | [] => 0
+  | x :: l' => (if Nat.eqb j y then 0 else relu0 (x - ly + h)) + hinge_sum h ly y (S j) l'
+  end.
+Definition vhinge (c h : R) (y : nat) (l : list R) : R := c * hinge_sum h (nth y l 0) y 0 l.
+Fixpoint hinge_count (h ly : R) (y : nat) (j : nat) (l : list R) : R :=
+  match l with
+  | [] => 0
+  | x :: l' => (if Nat.eqb j y then 0 else step0 (x - ly + h)) + hinge_count h ly y (S j) l'
+  end.
+(* TMP = 1 where margin > 0 (0 at the label); TMP[label] = - sum(TMP); back = TMP / N *)
+Definition hinge_bwd (g c h : R) (y : nat) (l : list R) (i : nat) : R :=
+  g * (c * (if Nat.eqb i y then - hinge_count h (nth y l 0) y 0 l else step0 (nth i l 0 - nth y l 0 + h))).
+(* margin ranking, one element pair: c * max(0, m - y (a - b)) *)
+Definition vmargin (c m y a b : R) : R := c * relu0 (m - y * (a - b)).
+Definition margin_bwd_a (g c m y a b : R) : R := g * ((- y) * (c * step0 (m - y * (a - b)))).
+Definition margin_bwd_b (g c m y a b : R) : R := g * (y * (c * step0 (m - y * (a - b)))).
+(* focal loss of one datum as a function of the probability p of its true class: - alpha (1-p)^gamma ln p  (0 < p < 1) *)
+Definition vfocal (alpha gamma p : R) : R := - (alpha * Rpower (1 - p) gamma * ln p).
+Definition focal_bwd (g alpha gamma p : R) : R :=
+  g * (if Req_EM_T gamma 0 then - (alpha / p) else - alpha * (Rpower (1 - p) gamma / p - gamma * Rpower (1 - p) (gamma - 1) * ln p)).
